@@ -770,9 +770,14 @@ def _vec_new(m, a, c):
             return PyVec(seed)
     v = PyVec()
     if c.get("name") == "with_capacity" and isinstance(deref(a[0]), int):
+        if deref(a[0]) > MAX_MODEL_ALLOC:
+            # the real call reserves the memory at once: gigabytes for element counts like these (abort on failure)
+            raise Panic("allocation of %d elements requested at once (Vec::with_capacity)" % deref(a[0]))
         CAPACITY[id(v)] = (v, deref(a[0]))
     return v
 
+
+MAX_MODEL_ALLOC = 1 << 20      # elements; nothing in the library legitimately pre-allocates more than a script's worth
 
 # requested capacities (model: with_capacity allocates exactly what was asked for, and the buffer
 # grows only when the length exceeds it); keyed by object identity, the value keeps the vec alive
